@@ -9,6 +9,7 @@ import (
 	"fmt"
 	"io"
 	"os"
+	"os/exec"
 	"os/signal"
 	"strconv"
 	"strings"
@@ -147,6 +148,8 @@ func HelperMain() {
 		writePid(args[1])
 		c := make(chan os.Signal, 1)
 		signal.Notify(c, syscall.SIGQUIT)
+		// from here on the interrupt is recorded; before, it ends the process the default way
+		os.WriteFile(args[1]+".ready", []byte(fmt.Sprint(vlib.MonoNow())), 0o666)
 		<-c
 		os.WriteFile(args[1]+".quit", []byte(fmt.Sprint(vlib.MonoNow())), 0o666)
 		os.Exit(0)
@@ -154,6 +157,7 @@ func HelperMain() {
 		writePid(args[1])
 		c := make(chan os.Signal, 4)
 		signal.Notify(c, syscall.SIGQUIT)
+		os.WriteFile(args[1]+".ready", []byte(fmt.Sprint(vlib.MonoNow())), 0o666)
 		first := true
 		for range c {
 			if first {
@@ -161,6 +165,21 @@ func HelperMain() {
 				first = false
 			}
 		}
+	case "orphan":
+		// orphan <pidfile> <mono>: start a grandchild that keeps this process's stdout and stderr
+		// open until <mono>, and exit at once (the command's own process is gone, its pipes are not)
+		exe, err := os.Executable()
+		if err != nil {
+			fmt.Fprintln(os.Stderr, err)
+			os.Exit(2)
+		}
+		c := exec.Command(exe, "exitat", args[1], args[2])
+		c.Stdout, c.Stderr = os.Stdout, os.Stderr
+		if err := c.Start(); err != nil {
+			fmt.Fprintln(os.Stderr, err)
+			os.Exit(2)
+		}
+		os.Exit(0)
 	case "exitat":
 		writePid(args[1])
 		at, _ := strconv.ParseInt(args[2], 10, 64)
